@@ -156,6 +156,12 @@ class ASYNC:
                     elif inspect.isgenerator(callback):
                         # Old style: resume generator (may yield multiple times)
                         next(callback)
+                        # it is not finished: it waits (for a socket to drain). The callbacks queued
+                        # behind it - API commands, answered in the order they were given - do not
+                        # wait with it: it goes to the back of the queue
+                        if self._async:
+                            self._async.append((uid, callback))
+                            uid, callback = self._async.popleft()
                     else:
                         # Fallback to generator behavior
                         next(callback)
